@@ -4,6 +4,7 @@ import (
 	"context"
 	"errors"
 	"net"
+	"time"
 
 	"github.com/segmentio/kafka-go/sasl"
 	"github.com/segmentio/kafka-go/sasl/plain"
@@ -15,18 +16,26 @@ import (
 // symbolic error code, optionally the connection ends after any of the frames.
 
 // vhStubMechanism stands in for multi-step mechanisms (SCRAM): every step's outcome is nondeterministic.
-type vhStubMechanism struct{ steps int }
+type vhStubMechanism struct {
+	steps  int
+	failed bool // the state machine reported an error at some step
+}
 
 func (m *vhStubMechanism) Name() string { return "SCRAM-SHA-256" }
 func (m *vhStubMechanism) Start(ctx context.Context) (sasl.StateMachine, []byte, error) {
 	if vhChoose("start_fails", 2) == 1 {
+		m.failed = true
 		return nil, nil, errors.New("vh: mechanism cannot start")
 	}
 	return m, []byte("client-first"), nil
 }
 func (m *vhStubMechanism) Next(ctx context.Context, challenge []byte) (bool, []byte, error) {
 	m.steps++
-	switch vhChoose("step_outcome", 3) {
+	switch vhChoose("step_outcome", 4) {
+	case 3:
+		// some state machines (xdg-go SCRAM) report "done" together with the error of the last step
+		m.failed = true
+		return true, nil, errors.New("vh: server signature invalid")
 	case 0:
 		return true, nil, nil
 	case 1:
@@ -35,6 +44,7 @@ func (m *vhStubMechanism) Next(ctx context.Context, challenge []byte) (bool, []b
 		}
 		return false, []byte("client-next"), nil
 	}
+	m.failed = true
 	return false, nil, errors.New("vh: bad server proof")
 }
 
@@ -132,6 +142,7 @@ func VH_C18_Dialer(handshakeVersion, mech int) {
 			vhAssert(authCode == 0, "success-implies-authenticate-accepted")
 		}
 		vhAssert(keep >= 3, "success-implies-broker-answered-every-step")
+		vhAssert(!stub.failed, "success-implies-the-mechanism-reported-no-error")
 		vhReach("c18-success")
 	} else {
 		vhAssert(conn == nil, "failure-returns-no-conn")
@@ -140,6 +151,95 @@ func VH_C18_Dialer(handshakeVersion, mech int) {
 	}
 	// 3. and conversely (PLAIN): all answers good => success
 	if mech == 0 && hsCode == 0 && keep >= 3 && (handshakeVersion == 0 || authCode == 0) {
+		vhAssert(err == nil, "good-exchange-succeeds")
+	}
+}
+
+// Transport connections: connGroup.connect negotiates versions, then authenticates before the connection's
+// request loop is started. Raw exchange after a v0 handshake, framed SaslAuthenticate after a v1 handshake.
+func VH_C18_Transport(handshakeVersion int) {
+	vhManual(true)
+	vhConcreteClock(true)
+	hsCode := vhInt16("handshake_error")
+	authCode := vhInt16("authenticate_error")
+	user := vhString("user", 2)
+	pass := vhString("pass", 2)
+	f1 := vhApiVersionsFrame(1, []vhApiRange{{17, 0, int16(handshakeVersion)}, {36, 0, 0}, {3, 0, 1}})
+	w := &vhW{}
+	w.i16(hsCode)
+	w.i32(1)
+	w.str("PLAIN")
+	f2 := vhFrameOf(2, w.b)
+	var f3 []byte
+	if handshakeVersion == 1 {
+		a := &vhW{}
+		a.i16(authCode)
+		a.nullStr()
+		a.bytes([]byte("ok"))
+		f3 = vhFrameOf(3, a.b)
+	} else {
+		a := &vhW{}
+		a.bytes([]byte("ok"))
+		f3 = a.b
+	}
+	frames := [][]byte{f1, f2, f3}
+	keep := vhChoose("frames_before_close", 4)
+	var script []byte
+	for i := 0; i < keep; i++ {
+		script = append(script, frames[i]...)
+	}
+	fc := &vhFakeConn{data: script}
+	p := &connPool{
+		dial:        func(ctx context.Context, network, address string) (net.Conn, error) { return fc, nil },
+		dialTimeout: time.Second,
+		clientID:    "vh",
+		sasl:        plain.Mechanism{Username: user, Password: pass},
+		conns:       make(map[int32]*connGroup),
+	}
+	addr := &networkAddress{network: "tcp", address: "broker:9092"}
+	g := p.newConnGroup(addr)
+	c, err := g.connect(context.Background(), addr)
+
+	reqs, rest := vhSplitRequests(fc.written)
+	token := append(append(append([]byte{0}, user...), 0), pass...)
+	nFramed := 0
+	for _, r := range reqs {
+		if r.apiKey == 18 || r.apiKey == 17 || r.apiKey == 36 {
+			nFramed++
+			continue
+		}
+		if handshakeVersion == 0 && nFramed >= 2 {
+			break
+		}
+		vhFail("only-auth-requests-before-verdict")
+	}
+	if handshakeVersion == 1 && hsCode == 0 && keep >= 2 {
+		// after a v1 handshake the authentication bytes travel in a SaslAuthenticate request (api key 36)
+		vhAssert(len(reqs) == 3 && reqs[2].apiKey == 36, "framed-authenticate-after-v1-handshake")
+		vhAssert(len(rest) == 0, "no-raw-bytes-after-v1-handshake")
+	}
+	if handshakeVersion == 0 && hsCode == 0 && keep >= 2 {
+		// after a v0 handshake: raw length-prefixed token
+		vhAssert(len(reqs) >= 2, "handshake-sent")
+		raw := fc.written[len(fc.written)-4-len(token):]
+		vhAssert(int(vhBE32(raw)) == len(token) && vhBytesEq(raw[4:], token), "raw-token-after-v0-handshake")
+	}
+	if err == nil {
+		vhAssert(c != nil && !fc.closed, "success-returns-open-conn")
+		vhAssert(hsCode == 0, "success-implies-handshake-accepted")
+		if handshakeVersion == 1 {
+			vhAssert(authCode == 0, "success-implies-authenticate-accepted")
+		}
+		vhAssert(keep == 3, "success-implies-broker-answered-every-step")
+		vhAssert(vhSpawned() == 1, "request-loop-started-only-after-authentication")
+		vhReach("c18-transport-success")
+	} else {
+		vhAssert(c == nil, "failure-returns-no-conn")
+		vhAssert(fc.closed, "failure-closes-the-connection")
+		vhAssert(vhSpawned() == 0, "no-request-loop-for-unauthenticated-connection")
+		vhReach("c18-transport-failure")
+	}
+	if hsCode == 0 && keep == 3 && (handshakeVersion == 0 || authCode == 0) {
 		vhAssert(err == nil, "good-exchange-succeeds")
 	}
 }
